@@ -245,9 +245,7 @@ FULL_POOL = {"RemoteValueScaling", "RemoteValueRaw", "RemoteValueSwitch", "Remot
 
 
 def pool(rng, thorough, full):
-    if thorough or full:
-        return BASE_VALUES
-    return rng.sample(BASE_VALUES, 45)
+    return BASE_VALUES
 
 
 def generate(rng, tier):
@@ -257,7 +255,7 @@ def generate(rng, tier):
             for v in pool(rng, thorough, name in FULL_POOL):
                 yield {"target": "rv", "cls": name, "cfg": cfg, "value": v, "response": False}
             dpt = dpt_of(name, cfg)
-            for _ in range(25 if not thorough else 600):
+            for _ in range(40 if not thorough else 1500):
                 yield {"target": "rv", "cls": name, "cfg": cfg, "value": random_value(rng, dpt), "response": rng.random() < 0.2}
     vts = [None, "temperature", "percent", "string", "1.001", 5, "9.001", "time", "date", "color_rgb", "20.102", "percentV16", "angle",
            "4byte_float", "scene_number", "pulse_2byte", "14.019", "unknown-type", 99999]
@@ -274,7 +272,7 @@ def generate(rng, tier):
                 dpt = DPTBase.parse_transcoder(vt) if vt is not None else None
             except Exception:  # noqa: BLE001
                 pass
-            for _ in range(15 if not thorough else 400):
+            for _ in range(30 if not thorough else 1000):
                 v = random_value(rng, dpt)
                 if target == "mcp" and not json_native(v):
                     continue
@@ -283,7 +281,7 @@ def generate(rng, tier):
     for d in DPTBase.dpt_class_tree():
         if inspect.isabstract(d) or d.dpt_main_number is None:
             continue
-        for _ in range(4 if not thorough else 40):
+        for _ in range(8 if not thorough else 80):
             yield {"target": "gvw", "value_type": d.dpt_number_str(), "value": random_value(rng, d)}
 
 
@@ -376,10 +374,14 @@ def observe(fn):
             continue
         pr = render_payload(apci.value)
         try:
-            CEMILData.init_from_telegram(t, src_addr=IndividualAddress(1)).to_knx()
+            raw = CEMILData.init_from_telegram(t, src_addr=IndividualAddress(1)).to_knx()
             ap = bytes(apci.to_knx()).hex()
         except Exception as e:  # noqa: BLE001
             return f"unser:{type(e).__name__} {pr[:60]}"
+        # what is on the wire must read back as what was accepted (the empty DPTArray is the one ambiguous payload)
+        back = CEMILData.from_knx(raw).payload
+        if type(back) is not type(apci) or (back.value != apci.value and not (isinstance(apci.value, DPTArray) and not apci.value.value)):
+            return f"unfaithful {pr[:60]} -> {render_payload(back.value)[:60]}"
         outs.append(f"{pr} {ap}")
     return "ok " + " ".join(outs)
 
@@ -536,6 +538,8 @@ def oracle(case, out):
         return None
     if out == "conv":
         return None
+    if out.startswith("unfaithful"):
+        return f"{what}: accepted, but the telegram on the wire carries a different payload ({out})"
     if out.startswith("unser:"):
         return f"{what}: accepted and queued, but the telegram cannot be serialised ({out})"
     if out.startswith("conv+queued") or out.endswith("+queued"):
